@@ -159,7 +159,7 @@ End Delta.
 
 (* a is added to the list in effect (at the top level; a language section keeps its other keys) *)
 Definition add_allowed (a : num) (cfg : mconfig) : mconfig :=
-  mk_cfg (Some (a :: raw_allowed cfg)) (c_max_small cfg) (option_map (fun s => (None, snd s)) (c_lang cfg)).
+  mk_cfg (Some (a :: raw_allowed cfg)) (c_max_small cfg) (option_map (fun s => (None, snd s)) (c_lang cfg)) (c_enabled cfg) (c_ignore cfg).
 
 (* adding a value removes exactly the violations naming it *)
 Theorem allowed_add lg q cfg a f :
@@ -231,3 +231,158 @@ Theorem reported_iff lg q cfg f r :
    exists sc s l v, In sc (f_scopes f) /\ In s (sc_sites sc) /\ In l (s_lits s)
                     /\ flaggable lg cfg f sc s l = Some v /\ r = (s_line s, RNum v)).
 Proof. intros Hq Hg. rewrite (report_exact lg q cfg f Hq Hg). apply spec_reported_iff. Qed.
+
+(* ------------------------------------------------------------------ the section switches *)
+Lemma gen_switches : (cfg_key_enabled, cfg_enabled_default, cfg_key_ignore, ignore_match_modes) = ("enabled", true, "ignore", ["path_match"; "substring"]).
+Proof. reflexivity. Qed.
+
+Lemma lint_spec_shape lg q cfg f :
+  lint lg q cfg f = match c_enabled cfg with
+                    | Some false => []
+                    | _ => if existsb (fun p => path_match p (f_name f) || contains (chars p) (chars (f_name f))) (c_ignore cfg) then []
+                           else report lg q cfg f
+                    end.
+Proof.
+  unfold lint, enabled, file_ignored, ignore_matches. replace cfg_enabled_default with true by reflexivity.
+  replace ignore_match_modes with ["path_match"; "substring"] by reflexivity.
+  destruct (c_enabled cfg) as [[|]|]; reflexivity.
+Qed.
+
+(* what the command reports, section switches included *)
+Theorem lint_exact lg q cfg f :
+  flags_off lg q -> file_good lg f = true -> lint lg q cfg f = spec_lint lg cfg f.
+Proof. intros Hq Hg. rewrite lint_spec_shape. unfold spec_lint. rewrite (report_exact lg q cfg f Hq Hg). reflexivity. Qed.
+
+Theorem lint_guarded lg q cfg f :
+  file_good lg f = true -> file_plain lg q f = true -> lint lg q cfg f = spec_lint lg cfg f.
+Proof. intros Hg Hp. rewrite lint_spec_shape. unfold spec_lint. rewrite (report_guarded lg q cfg f Hg Hp). reflexivity. Qed.
+
+Theorem lint_disabled lg q cfg f : c_enabled cfg = Some false -> lint lg q cfg f = [].
+Proof. intros H. rewrite lint_spec_shape, H. reflexivity. Qed.
+
+Theorem lint_ignored lg q cfg f p :
+  In p (c_ignore cfg) -> path_match p (f_name f) || contains (chars p) (chars (f_name f)) = true -> lint lg q cfg f = [].
+Proof.
+  intros Hin Hm. rewrite lint_spec_shape. destruct (c_enabled cfg) as [[|]|]; try reflexivity;
+    (replace (existsb _ (c_ignore cfg)) with true; [reflexivity|]; symmetry; apply existsb_exists; exists p; auto).
+Qed.
+
+(* the delta law survives the switches *)
+Theorem lint_allowed_add lg q cfg a f :
+  lint lg q (add_allowed a cfg) f = filter (keep (norm a)) (lint lg q cfg f).
+Proof.
+  rewrite !lint_spec_shape.
+  change (c_enabled (add_allowed a cfg)) with (c_enabled cfg). change (c_ignore (add_allowed a cfg)) with (c_ignore cfg).
+  destruct (c_enabled cfg) as [[|]|]; try reflexivity;
+    (destruct (existsb _ (c_ignore cfg)); [reflexivity | apply allowed_add]).
+Qed.
+
+(* ------------------------------------------------------------------ same-line ignore directives *)
+Lemma gen_directives :
+  (py_dir_generic, py_dir_noqa, ts_dir_specific, ts_dir_generic, ts_dir_noqa)
+  = (("# thailint: ignore", "#", "["), "# noqa", "// thailint: ignore[magic-numbers]", ("// thailint: ignore", "//", "["), "// noqa").
+Proof. reflexivity. Qed.
+
+Lemma str_list_eqb_eq (x y : list string) :
+  (List.length x =? List.length y) && forallb (fun p => String.eqb (fst p) (snd p)) (combine x y) = true -> x = y.
+Proof.
+  revert y. induction x as [|a x IH]; intros [|b y] H; try reflexivity; try discriminate.
+  cbn [List.length combine forallb fst snd] in H. apply andb_prop in H. destruct H as [HL H]. apply andb_prop in H. destruct H as [Hab H].
+  apply String.eqb_eq in Hab. subst b. f_equal. apply IH. rewrite H, andb_true_r. exact HL.
+Qed.
+
+Lemma directive_eqb_eq a b : directive_eqb a b = true -> a = b.
+Proof.
+  destruct a as [ta ra], b as [tb rb]. unfold directive_eqb. cbn [d_text d_rules]. intros H. apply andb_prop in H. destruct H as [Ht Hr].
+  apply String.eqb_eq in Ht. subst tb. destruct ra as [x|], rb as [y|]; try discriminate; [|reflexivity].
+  rewrite (str_list_eqb_eq x y Hr). reflexivity.
+Qed.
+
+(* on every directive form of the pool the parser oracle plus the linter's own text checks suppress exactly what is documented *)
+Lemma pool_suppress lg d : existsb (directive_eqb d) dir_pool = true -> model_suppresses lg d = spec_suppresses d.
+Proof.
+  intros H. apply existsb_exists in H. destruct H as [x [Hin E]]. apply directive_eqb_eq in E. subst x.
+  cbn [dir_pool In] in Hin. repeat (destruct Hin as [<-|Hin]; [destruct lg; vm_compute; reflexivity|]). destruct Hin.
+Qed.
+
+Lemma filter_ext_in' {A} (p r : A -> bool) l : (forall x, In x l -> p x = r x) -> filter p l = filter r l.
+Proof. induction l as [|x xs IH]; intros H; [reflexivity|]. cbn [filter]. rewrite (H x (or_introl eq_refl)), IH; [reflexivity|]. intros y Hy. apply H. right. exact Hy. Qed.
+
+Lemma suppressed_at_pool lg ds n : dirs_good ds = true -> suppressed_at (model_suppresses lg) ds n = suppressed_at spec_suppresses ds n.
+Proof.
+  intros H. unfold suppressed_at, dirs_good in *. rewrite forallb_forall in H. apply existsb_ext_in. intros ld Hld.
+  rewrite (pool_suppress lg (snd ld) (H ld Hld)). reflexivity.
+Qed.
+
+(* reports with line-level ignores: exactly the demanded reports on lines that carry no matching directive *)
+Theorem lint_d_exact lg q cfg f ds :
+  flags_off lg q -> file_good lg f = true -> dirs_good ds = true -> lint_d lg q cfg f ds = spec_lint_d lg cfg f ds.
+Proof.
+  intros Hq Hg Hd. unfold lint_d, spec_lint_d. rewrite (lint_exact lg q cfg f Hq Hg).
+  apply filter_ext_in'. intros r _. rewrite (suppressed_at_pool lg ds (fst r) Hd). reflexivity.
+Qed.
+
+Theorem lint_d_guarded lg q cfg f ds :
+  file_good lg f = true -> file_plain lg q f = true -> dirs_good ds = true -> lint_d lg q cfg f ds = spec_lint_d lg cfg f ds.
+Proof.
+  intros Hg Hp Hd. unfold lint_d, spec_lint_d. rewrite (lint_guarded lg q cfg f Hg Hp).
+  apply filter_ext_in'. intros r _. rewrite (suppressed_at_pool lg ds (fst r) Hd). reflexivity.
+Qed.
+
+Lemma filter_comm {A} (p r : A -> bool) l : filter p (filter r l) = filter r (filter p l).
+Proof. induction l as [|x xs IH]; [reflexivity|]. cbn [filter]. destruct (p x) eqn:P, (r x) eqn:R; cbn [filter]; rewrite ?P, ?R, IH; reflexivity. Qed.
+
+(* a directive with a matching rule (or the bare form) on a line removes every report of that line, and nothing else *)
+Theorem lint_d_delta lg q cfg a f ds :
+  lint_d lg q (add_allowed a cfg) f ds = filter (keep (norm a)) (lint_d lg q cfg f ds).
+Proof. unfold lint_d. rewrite lint_allowed_add. apply filter_comm. Qed.
+
+Theorem spec_directive_line lg cfg f ds r :
+  In r (spec_lint_d lg cfg f ds) <-> In r (spec_lint lg cfg f) /\ suppressed_at spec_suppresses ds (fst r) = false.
+Proof. unfold spec_lint_d. rewrite filter_In, negb_true_iff. reflexivity. Qed.
+
+(* ------------------------------------------------------------------ negative entries of allowed_numbers *)
+(* a literal is an unsigned token (the minus of `-5` is an operator in all three grammars): values are never negative, so a
+   negative entry of allowed_numbers matches nothing *)
+Lemma digits_val_nonneg base acc ds : (0 <= base)%Z -> (0 <= acc)%Z -> (0 <= digits_val base acc ds)%Z.
+Proof. intros Hb. revert acc. induction ds as [|d r IH]; intros acc Ha; cbn [digits_val]; [exact Ha|]. apply IH. nia. Qed.
+
+Lemma strip10_sign fuel m e : ((0 <= m)%Z -> (0 <= fst (strip10 fuel m e))%Z) /\ ((m < 0)%Z -> (fst (strip10 fuel m e) < 0)%Z).
+Proof.
+  revert m e. induction fuel as [|n IH]; intros m e; cbn [strip10]; [cbn; split; auto|].
+  destruct (m mod 10 =? 0)%Z eqn:E; [|cbn; split; auto].
+  apply Z.eqb_eq in E. destruct (IH (m / 10)%Z (e + 1)%Z) as [I1 I2]. split; intros H.
+  - apply I1. apply Z.div_pos; lia.
+  - apply I2. assert (m = 10 * (m / 10))%Z by (rewrite (Z.div_mod m 10) at 1; lia). lia.
+Qed.
+
+Lemma norm_nonneg v : (0 <= fst v)%Z -> (0 <= fst (norm v))%Z.
+Proof.
+  destruct v as [m e]. cbn [fst]. intros H. unfold norm. destruct (m =? 0)%Z; [cbn; lia|].
+  apply (proj1 (strip10_sign _ m e)). exact H.
+Qed.
+
+Lemma norm_neg v : (fst v < 0)%Z -> (fst (norm v) < 0)%Z.
+Proof.
+  destruct v as [m e]. cbn [fst]. intros H. unfold norm. destruct (m =? 0)%Z eqn:E; [apply Z.eqb_eq in E; lia|].
+  apply (proj2 (strip10_sign _ m e)). exact H.
+Qed.
+
+Lemma lit_value_nonneg l v : lit_value l = Some v -> (0 <= fst v)%Z.
+Proof.
+  unfold lit_value. destruct l; cbn [lit_raw option_map]; try discriminate; intros E; inversion E; apply norm_nonneg; cbn [fst];
+    apply digits_val_nonneg; lia.
+Qed.
+
+Theorem negative_allowed_inert lg q cfg a f :
+  flags_off lg q -> file_good lg f = true -> (fst a < 0)%Z ->
+  report lg q (add_allowed a cfg) f = report lg q cfg f.
+Proof.
+  intros Hq Hg Ha. rewrite allowed_add.
+  assert (K : forall r, In r (report lg q cfg f) -> keep (norm a) r = true).
+  { intros r Hr. destruct (report_only_numeric lg q cfg f r Hq Hg Hr) as [sc [s [l [v [_ [_ [_ [_ [Hv ->]]]]]]]]].
+    unfold keep. cbn [snd rval_names]. apply negb_true_iff. destruct (num_eqb v (norm a)) eqn:E; [|reflexivity].
+    apply num_eqb_eq in E. subst v. assert (N := norm_neg a Ha). assert (P := lit_value_nonneg l _ Hv). lia. }
+  induction (report lg q cfg f) as [|x xs IH]; [reflexivity|]. cbn [filter]. rewrite (K x (or_introl eq_refl)). f_equal.
+  apply IH. intros r Hr. apply K. right. exact Hr.
+Qed.
